@@ -258,6 +258,73 @@ func twinRuns(t *testing.T, k int) bool {
 	return true
 }
 
+// crowded: an earlier call under a context nobody cancels has left n script goroutines behind, all alive (blocked
+// on a channel of the host). A second call that executes go statements of every calling convention and then
+// spins or blocks is cancelled: it must return, however many script goroutines the process already holds.
+func crowded(t *testing.T, n int, k int) bool {
+	hold := make(chan int64)
+	e0 := env.NewEnv()
+	e0.Define("hold", hold)
+	defer close(hold) // lets the left-over goroutines end
+	// n earlier calls, each under a context of its own that stays alive, each leaving ONE goroutine behind: none of
+	// them owns a goroutine that a cancellation could end, so whatever a go statement may wait for inside the
+	// interpreter is not released by cancelling the call that executes it
+	if _, err := vm.Execute(e0, nil, "func w() { <-hold }"); err != nil {
+		fmt.Printf("REAL-LEG TROUBLE the set-up of the crowded scenario failed: %v\n", err)
+		t.FailNow()
+	}
+	for i := 0; i < n; i++ {
+		ctx0, cancel0 := context.WithCancel(context.Background())
+		defer cancel0()
+		done0 := make(chan error, 1)
+		go func() { _, err := vm.ExecuteContext(ctx0, e0, nil, "go w()"); done0 <- err }()
+		select {
+		case err := <-done0:
+			if err != nil {
+				fmt.Printf("REAL-LEG TROUBLE the set-up of the crowded scenario failed: %v\n", err)
+				t.FailNow()
+			}
+		case <-time.After(20 * time.Second):
+			// a single go statement that takes this long is stuck: once cancelled the call is owed a return
+			cancel0()
+			select {
+			case <-done0:
+				return true // merely slow: no verdict from this scenario
+			case <-time.After(30 * time.Second):
+				fmt.Printf("REAL-LEG VIOLATION class=cancel-ignored\na call whose whole program is `go w()` (w blocks on a channel of the host) had been running for 20 s and had not returned 30 s after its context was cancelled; %d earlier calls of the same kind, each under a context still alive, have left one goroutine behind each\n", i)
+				t.FailNow()
+			}
+		}
+	}
+	progs := []string{
+		"func w() { <-hold }\nfor i = 0; i < 8; i++ { go w() }\nfor { }",
+		"go func() { <-hold }()\nc = make(chan int64)\n<-c",
+		"func w(a, b, c, d, e) { <-hold }\ngo w(1, 2, 3, 4, 5)\nfor { x = 1 }",
+		"func w(a, r...) { <-hold }\nxs = [1, 2, 3]\ngo w(xs...)\ngo w(1)\nc = make(chan int64, 1)\nfor { c <- 1 }",
+		"func mk() { return func(x) { <-hold } }\nf = mk()\nfor i = 0; i < 4; i++ { go f(i) }\nfor v in make(chan int64) { }",
+	}
+	src := progs[k%len(progs)]
+	e := env.NewEnv()
+	e.Define("hold", hold)
+	ctx, cancel := context.WithCancel(context.Background())
+	defer cancel()
+	done := make(chan error, 1)
+	go func() { _, err := vm.ExecuteContext(ctx, e, nil, src); done <- err }()
+	time.Sleep(5 * time.Millisecond)
+	cancel()
+	select {
+	case err := <-done:
+		if err == nil || err.Error() != "execution interrupted" {
+			fmt.Printf("REAL-LEG VIOLATION class=interrupt-swallowed\na cancelled call in a process that holds %d live script goroutines of an earlier call returned error %v\n%s\n", n, err, src)
+			t.FailNow()
+		}
+	case <-time.After(30 * time.Second):
+		fmt.Printf("REAL-LEG VIOLATION class=cancel-ignored\na call that starts goroutines and then spins or blocks had not returned 30 s after its context was cancelled; the process holds %d live script goroutines that an earlier call (never cancelled) left behind\n%s\n", n, src)
+		t.FailNow()
+	}
+	return true
+}
+
 func TestRaceC02(t *testing.T) {
 	seed, d := budget()
 	end := time.Now().Add(d)
@@ -277,6 +344,9 @@ func TestRaceC02(t *testing.T) {
 	}
 	for k := 0; k < 11; k++ {
 		twinRuns(t, k)
+	}
+	for k := 0; k < 5; k++ {
+		crowded(t, 260+next(500), k)
 	}
 	fmt.Printf("deep unwinds took %v\n", time.Since(t0))
 	end = time.Now().Add(d) // the racing rounds keep their full budget
